@@ -39,12 +39,43 @@ def py_mix_leaf(rng, minor=None):
     """python_version / python_full_version clauses around one minor release: the bounds at which the two variables are rewritten
     into each other (X.Y, X.Y.0, and patch levels 1, 5, 10, 20 of X.Y)"""
     m = minor or rng.choice(["3.7", "3.8", "3.9", "3.10"])
+    if rng.random() < 0.18:
+        # a single clause that is a two-sided range of interpreters: a list of releases, a compatible-release clause (with a padded
+        # two-component literal too) - next to ==, < and >= on the neighbouring release they touch without overlapping
+        nxt = m.split(".")[0] + "." + str(int(m.split(".")[1]) + 1)
+        return rng.choice([f'python_version in {MI.q(rng, m)}', f'python_version in {MI.q(rng, m + ", " + nxt)}', f'python_version not in {MI.q(rng, m)}',
+                           f'python_full_version ~= {MI.q(rng, m + ".0")}', f'python_full_version ~= {MI.q(rng, m)}', f'python_version == {MI.q(rng, nxt)}',
+                           f'python_version >= {MI.q(rng, nxt)}', f'python_version < {MI.q(rng, m)}'])
     if rng.random() < 0.5:
         return f'python_version {rng.choice(["<", "<=", ">", ">=", "==", "!="])} {MI.q(rng, m)}'
     return f'python_full_version {rng.choice(["<", "<", "<=", ">", ">=", ">=", "==", "!="])} {MI.q(rng, m + "." + rng.choice(["0", "1", "5", "10", "20"]))}'
 
+def series_clause(rng, m):
+    """one clause (or a conjunction of two) that holds exactly on the interpreters of release series m = X.Y"""
+    nxt = m.split(".")[0] + "." + str(int(m.split(".")[1]) + 1)
+    return rng.choice([f'python_version in {MI.q(rng, m)}', f'python_version == {MI.q(rng, m)}', f'python_full_version ~= {MI.q(rng, m + ".0")}',
+                       f'python_version ~= {MI.q(rng, m)}' if False else f'python_version in {MI.q(rng, m)}',
+                       f'python_version >= {MI.q(rng, m)} and python_version < {MI.q(rng, nxt)}',
+                       f'python_full_version >= {MI.q(rng, m + ".0")} and python_full_version < {MI.q(rng, nxt + ".0")}'])
+def touching_pair(rng):
+    """two operands that are ranges of interpreters touching without overlapping (series X.Y next to X.Y+1, or a list of two series next
+    to the third), or one containing the other with a padded compatible-release clause: the merges of python_version clauses at
+    their seams"""
+    y = rng.choice([7, 8, 9, 10]); m, nxt, nn, prev = f"3.{y}", f"3.{y + 1}", f"3.{y + 2}", f"3.{y - 1}"
+    if rng.random() < 0.65:
+        a = rng.choice([series_clause(rng, m), f'python_version in {MI.q(rng, prev + ", " + m)}'])
+        b = rng.choice([series_clause(rng, nxt), f'python_version in {MI.q(rng, nxt + ", " + nn)}', f'python_version >= {MI.q(rng, nxt)}', f'python_full_version == {MI.q(rng, nxt + ".0")}'])
+    else:
+        a = rng.choice([f'python_full_version ~= {MI.q(rng, m)}', f'python_full_version ~= {MI.q(rng, m + ".0")}', f'python_full_version >= {MI.q(rng, m)}'])
+        b = rng.choice([f'python_version >= {MI.q(rng, m)}', f'python_version > {MI.q(rng, prev)}', f'python_version >= {MI.q(rng, prev)}', f'python_version < "4.0"',
+                        f'python_version != {MI.q(rng, prev)}', f'python_version < {MI.q(rng, nn)}'])
+    if rng.random() < 0.5: a, b = b, a
+    return (a, 1, {"pv", "pfv"}), (b, 1, {"pv", "pfv"})
+
 def gen_pair(rng, tier, maxleaves=None):
     mx = maxleaves or (3 if tier == "quick" else 5)
+    if rng.random() < 0.14:
+        return touching_pair(rng)
     if rng.random() < 0.12:
         m = rng.choice(["3.7", "3.8", "3.9", "3.10"])
         def side():
@@ -56,11 +87,18 @@ def gen_pair(rng, tier, maxleaves=None):
     a = MI.gen_marker(rng, depth=2, leaves=rng.randint(1, mx), focus=focus)
     bb = MI.gen_marker(rng, depth=2, leaves=rng.randint(1, mx), focus=focus)
     return a, bb
+def fresh_caches():
+    """empties the public functools caches of the marker module: a text parsed afterwards is built anew instead of coming back as an equal
+    object made earlier (the marker whose text is being read back)"""
+    import poetry.core.version.markers as _mk
+    for f in vars(_mk).values():
+        if callable(getattr(f, "cache_clear", None)): f.cache_clear()
 def roundtrip_detail(r, ienvs, F=None):
     """text of a marker parses back (poetry-core and reference) and evaluates identically"""
     if r.is_any() or r.is_empty():
         return None
     s = str(r)
+    fresh_caches()
     m2 = parse(s)
     if m2 is None: return None
     if isinstance(m2, Exception): return f"text {s!r} is rejected by poetry-core's parser: {type(m2).__name__}"
